@@ -85,6 +85,15 @@ def main():
             if demo and demo.endswith("_test.go"):
                 cmd, pkg = demo_info(demo)
                 ddir = demo_dirs.get(v) or find_dir_for(cmd or ".", pkg, wt)
+                # a demo that is its own package runs from its own directory
+                existing = [f for f in os.listdir(os.path.join(wt, ddir)) if f.endswith(".go") and not f.endswith("_test.go")]
+                expkg = None
+                if existing:
+                    mm = re.search(r"^package\s+(\w+)", open(os.path.join(wt, ddir, existing[0])).read(), re.M)
+                    expkg = mm.group(1) if mm else None
+                if pkg not in (expkg, (expkg or "") + "_test"):
+                    ddir = "./zz_seeddemo_%s" % v.lower()
+                    os.makedirs(os.path.join(wt, ddir), exist_ok=True)
                 target = os.path.join(wt, ddir, "zz_seed_demo_%s_test.go" % v.lower())
                 m = re.search(r"-run\s+'?\"?([^'\"\s]+)", cmd or "")
                 runre = m.group(1) if m else "."
